@@ -156,8 +156,12 @@ def k3(ses, rep, N):
     flagged = []
     T = ses.enums("default")
     FT = [v[0] for v in T.variants("FormatTokenType")]
-    for kind in ("SingleLineComment", "Shebang", "MultiLineComment", "StringLiteral"):
-        ex = ses.executor("lib", "default", inline=INLINE_CTX)
+    extra_inline = set()           # in-crate helpers found to stand between the input text and the output text (demand-driven)
+    work = ["SingleLineComment", "Shebang", "MultiLineComment", "StringLiteral"]
+    tries = {}
+    while work:
+        kind = work.pop(0)
+        ex = ses.executor("lib", "default", inline=lambda n, f, extra=frozenset(extra_inline): INLINE_CTX(n, f) or f.name in extra)
         text = BStr.fresh("text", N)
         vdef = [v for v in T.variants("TokenType") if v[0] == kind][0]
         fields = []
@@ -184,6 +188,7 @@ def k3(ses, rep, N):
             raise Inconclusive(f"format_token({kind}): no returning path")
         le = cfg_field(ex, ctx, "line_endings")
         n_ok = 0
+        retry = False
         for pi, o in enumerate(outs):
             res = o.value
             if not (isinstance(res, Agg) and len(res.fields) == 3):
@@ -201,6 +206,14 @@ def k3(ses, rep, N):
             base = list(o.pc) + [text.wellformed()]
             oid = f"format_token/{kind}/path{pi}"
             if not isinstance(out_text, BStr):
+                # an extracted helper? inline it and analyse this token kind again
+                if isinstance(out_text, Lazy) and out_text.oid in ex.havoc_calls and tries.get(kind, 0) < 3:
+                    g = ex.resolve(ex.havoc_raw.get(out_text.oid, ex.havoc_calls[out_text.oid][0]))
+                    if g is not None and g.blocks and g.name not in extra_inline:
+                        extra_inline.add(g.name)
+                        tries[kind] = tries.get(kind, 0) + 1
+                        retry = True
+                        break
                 r, m = ses.obligation(oid + "/text-recognised", base, z3.BoolVal(True), "the output token carries a rewritten text")
                 if r == "sat":
                     flagged.append((oid, f"format_token({kind}): output text is {out_text!r}, not a function of the input text", "text", {"kind": kind}))
@@ -265,9 +278,16 @@ def k3(ses, rep, N):
                                           "a trailing line comment is preceded by exactly one space and followed by nothing")
                     if r == "sat":
                         flagged.append((oid + "/space", "a trailing line comment is not preceded by exactly one space", "wrap", {"kind": kind}))
+        if retry:
+            flagged[:] = [f_ for f_ in flagged if f_[3].get("kind") != kind]
+            rep.obligations[:] = [o_ for o_ in rep.obligations if f"format_token/{kind}/" not in o_["id"]]
+            work.insert(0, kind)
+            continue
         if n_ok == 0 and not any(f_[3].get("kind") == kind for f_ in flagged):
             raise Inconclusive(f"format_token({kind}): no path rewrites the text")
     rep.bounds["text_chars"] = N
+    if extra_inline:
+        rep.extra["inlined_text_helpers"] = sorted(extra_inline)
     return flagged
 
 
